@@ -58,7 +58,7 @@ ASSUMPTIONS = [
     "a put at the seam is atomic (as LocalTransport.put_file is: temp file + rename); put_na of the lock's info file may be torn by a crash",
     "injected errors: TransportError, PermissionDenied, ENOSPC, ConnectionError (NoSuchFile is not injected: for an existing conflicts file it would be a lie that add_conflicts is entitled to believe)",
     "after a crashed or failed write the sweep removes leftover lock directories with the os module (the operator's break-lock), then opens the tree afresh",
-    "guard resolve_enotdir (reported defect): no text / contents conflict is stored whose path lies below a regular file of the tree (Conflict.cleanup lets NotADirectoryError escape from resolve); lifted in a share of the runs once known_findings.json has an open entry [C20, known-defect, resolve_enotdir], or with VERIF_UNGUARDED=1",
+    "text / contents conflicts whose path lies below a regular file of the tree are generated too (resolve_enotdir: Conflict.cleanup let NotADirectoryError escape from resolve; repaired in /repo by 646d20b, replay findings/C20-finding-resolve_enotdir.json keeps the signature [C20, known-defect, resolve_enotdir])",
     "runs execute in-process (ISOLATION=thread): each run builds tree, model and Sim from scratch; fault points are enumerated by re-execution from the re-established state, not by forking",
 ]
 STEP_CAP = 400000
@@ -209,8 +209,9 @@ def gen_list(rng, paths, ids, pool, n, avoid=()):
 
 def generate(rng, tier):
     pool = rng.sample(COMPONENT_POOL, rng.randint(4, 8))
-    x = rng.random()
-    unguarded = list(GUARDS) if x < P_UNGUARDED else (M.lifted_guards(PROPERTY, GUARDS) if x < P_LIFT else [])
+    # resolve_enotdir is repaired in /repo (646d20b): the state is generated like any other and a
+    # failure there carries the ordinary signature (plan["unguarded"] is only set by old replays)
+    unguarded = list(GUARDS)
     # the tree: a few entries, parents first
     entries = []
     kinds = {}
@@ -311,8 +312,6 @@ def generate(rng, tier):
             ops.append({"o": "reopen"})
     # entries were renamed in place while generating: the plan needs the initial layout
     plan = {"pool": pool, "entries": _initial_entries(entries, ops), "ops": ops}
-    if unguarded:
-        plan["unguarded"] = unguarded
     kinds_ = rng.choice([["err_before"], ["crash"], ["err_before", "crash"], ["err_before", "crash"]])
     plan["sweep"] = {"kinds": kinds_, "err": rng.choice(ERRS), "max": rng.choice([4, 8, 16])}
     return plan
